@@ -256,6 +256,7 @@ spif_url_parse(spif_url_t self)
     spif_charptr_t pstr, pend, ptmp;
 
     ASSERT_RVAL(!SPIF_URL_ISNULL(self), FALSE);
+    REQUIRE_RVAL(!SPIF_PTR_ISNULL(s), FALSE);
     pstr = s;
 
     /* Check for "proto:" at the beginning. */
